@@ -553,3 +553,120 @@ def rule_valist_once(prog, rep, units, rid='VA1'):
                     rep.violation(rid, f, x.get('_line'), 'va:%s' % ap,
                                   '%s: %s consumes the va_list %s again on a path on which it was already consumed and not re-started with '
                                   'va_start: the second formatting attempt reads arguments that are gone' % (f.name, canon(x)[:50], ap))
+
+
+# --------------------------------------------------------------------------------------
+# GR2: a sentinel-terminated result array is closed before anyone scans it
+
+def _nonzero_tag(e):
+    """a constant != 0, or a conditional both arms of which are constants != 0 (`newmem ? 2 : 1`)"""
+    v = int_value(e)
+    if isinstance(v, int):
+        return v != 0
+    s_ = strip_parens(strip(e))
+    if s_.get('kind') == 'ConditionalOperator':
+        return all(_nonzero_tag(c) for c in children(s_)[1:])
+    return False
+
+
+def qtype_of_path(f, name):
+    for x in walk(f.decl):
+        if x.get('kind') in ('VarDecl', 'ParmVarDecl') and x.get('name') == name:
+            return qtype(x)
+    return None
+
+
+def rule_sentinel_closed(prog, rep, units, rid='GR2'):
+    """Result arrays that end with a sentinel element (`type == 0` after the last entry of getmulti's array) are scanned by
+    their consumers (`freemulti()`, the caller) up to that sentinel.  Typestate of the array inside the function that builds
+    it: storing an element (its `type` set to a non-zero tag) opens it, writing the sentinel (`type = 0`, or zero-filling the
+    next element) closes it; handing the array to a scanning consumer or returning it while it may be open lets the scan run
+    into uninitialised memory."""
+    rep.rule(rid, 'a sentinel-terminated result array is closed (sentinel written behind the last stored element) on every path on which '
+                  'it is handed to a scanning consumer or returned')
+    for u in units:
+        prog.unit(u)
+        # scanning consumers: functions with a loop whose condition tests `->type` of a walking element pointer
+        consumers = set()
+        for g in prog.funcs_in(u):
+            if g.body is None or not g.params:
+                continue
+            for (head, stmt) in g.cfg.loops:
+                cond = stmt['inner'][2] if stmt.get('kind') == 'ForStmt' else (stmt['inner'][0] if stmt.get('kind') == 'WhileStmt' else None)
+                if cond and '->type' in canon(cond):
+                    consumers.add(g.name)
+        for f in sorted(prog.funcs_in(u), key=lambda x: x.line or 0):
+            if f.body is None:
+                continue
+            opens = [y for y in walk(f.body) if y.get('kind') == 'BinaryOperator' and y.get('opcode') == '=' and
+                     strip(children(y)[0]).get('kind') == 'MemberExpr' and strip(children(y)[0]).get('name') == 'type' and
+                     _nonzero_tag(children(y)[1])]
+            uses = [y for y in walk(f.body) if y.get('kind') == 'CallExpr' and prog.callee_name(y) in consumers]
+            if not opens or not (uses or (f.rettype or '').rstrip().endswith('*')):
+                continue
+            elemtype = (qtype(strip(children(strip(children(opens[0])[0]))[0])) or '').replace('*', '').strip()
+            cfg = f.cfg
+
+            def events(m):
+                out = []
+                if not isinstance(m.ast, dict) or m.kind == 'macro':
+                    return out
+                from .own import node_events
+                for ev in node_events(m):
+                    if ev[0] == 'assign':
+                        l = strip(ev[1])
+                        if l.get('kind') == 'MemberExpr' and l.get('name') == 'type':
+                            v = int_value(ev[2])
+                            if isinstance(v, int) and v == 0:
+                                out.append('close')
+                            elif _nonzero_tag(ev[2]):
+                                out.append('open')
+                    elif ev[0] == 'call':
+                        nm = prog.callee_name(ev[1])
+                        if nm == 'memset' and len(children(ev[1])) > 2 and int_value(children(ev[1])[2]) == 0 and \
+                                elemtype and elemtype in (qtype(strip(strip_parens(strip(children(ev[1])[1])))) or ''):
+                            out.append('close')
+                        elif nm in consumers:
+                            out.append(('consume', ev[1]))
+                if m.kind == 'act' and m.ast.get('kind') == 'ReturnStmt' and children(m.ast) and \
+                        elemtype and elemtype in (qtype(strip(children(m.ast)[0])) or ''):
+                    out.append(('consume', m.ast))
+                return out
+            from .expr import access_path as _ap
+            arrvars = {_ap(children(y)[1]) for y in uses if len(children(y)) > 1} | \
+                {_ap(children(r.ast)[0]) for r in cfg.returns() if children(r.ast)}
+            arrvars.discard(None)
+            IN = {cfg.entry.id: frozenset(['closed'])}
+            work = [cfg.entry]
+            bad = {}
+            while work:
+                m = work.pop()
+                st = set(IN[m.id])
+                for e in events(m):
+                    if e == 'open':
+                        st = {'open'}
+                    elif e == 'close':
+                        st = {'closed'}
+                    elif isinstance(e, tuple) and 'open' in st:
+                        bad.setdefault(id(e[1]), e[1])
+                st = frozenset(st)
+                for (s2, lab) in m.succs:
+                    st2 = st
+                    if m.kind == 'cond' and isinstance(m.ast, dict):
+                        from .own import cond_null_test
+                        tn = cond_null_test(m.ast)
+                        if tn and ((lab == 'T') == tn[1]) and tn[0] in arrvars:
+                            st2 = frozenset(['closed'])          # no array at all on this edge
+                    old = IN.get(s2.id)
+                    if old is None:
+                        IN[s2.id] = st2
+                        work.append(s2)
+                    elif not st2 <= old:
+                        IN[s2.id] = old | st2
+                        work.append(s2)
+            rep.instance(rid)
+            rep.oblige(rid, not bad, {'function': f.name, 'element_type': elemtype, 'scanning_consumers': sorted(consumers)})
+            for e in list(bad.values())[:2]:
+                rep.violation(rid, f, e.get('_line'), 'open-array',
+                              '%s hands its result array on (%s) on a path on which an element was stored but the sentinel behind it was not '
+                              'written yet: the consumer scans up to the sentinel and runs into uninitialised memory' % (f.name, canon(e)[:50]))
